@@ -90,9 +90,9 @@ class FiltersSet:
                 if isinstance(comment, bytes):
                     comment = comment.decode("utf-8")
                 if comment.startswith(self.filter_name_pretext):
-                    name = comment.replace(self.filter_name_pretext, "")
+                    name = comment[len(self.filter_name_pretext) :]
                 if comment.startswith(self.filter_desc_pretext):
-                    description = comment.replace(self.filter_desc_pretext, "")
+                    description = comment[len(self.filter_desc_pretext) :]
             self.filters += [
                 {
                     "name": name,
